@@ -114,8 +114,10 @@ def r1r2(fb, chk, tag):
         kind = row["reply"][0]
         if code == "SET_LOG_BASE":
             ok = all("extract_request_body" in show(r[3]) for r in rs)
+            # the echo carries no status: it may only be sent once the handler is known to have succeeded
+            ok = ok and all(any(a[0] == "ok" and server.same_call(a[1], H) for a in m.atoms_at(r[0])) for r in rs)
             chk.check(ok, "R1", key, "reply echoes the accepted request body (sent only after the handler succeeded)",
-                      "SET_LOG_BASE reply body is %s" % [show(r[3])[:60] for r in rs], f.loc(rs[0][1]["line"]))
+                      "SET_LOG_BASE reply (an echo without status) is sent although the handler may have failed, or its body is not the request's: %s" % [show(r[3])[:60] for r in rs], f.loc(rs[0][1]["line"]))
             continue
         if code == "GET_PROTOCOL_FEATURES":
             ok = all(has_sub(r[3], H) for r in rs)
@@ -185,7 +187,9 @@ def r1r2(fb, chk, tag):
             chk.check(good_payload == 1 and not [p for p in probs if "payload reply" in p], "R1", key,
                       "payload and size come from the handler's data under Ok && len == requested size",
                       "GET_CONFIG success reply: %s" % probs, f.loc())
-            chk.check(bad_nopayload >= 2 and not [p for p in probs if "failure" in p or "no-payload" in p], "R2", key,
+            # one failure site per case (Err / wrong length) or one merged `else` site: every send without payload must
+            # declare size 0 and lie off the success edge; that each handler outcome reaches exactly one send is C04/P1
+            chk.check(bad_nopayload >= 1 and not [p for p in probs if "failure" in p or "no-payload" in p], "R2", key,
                       "handler Err / wrong length -> size 0, no payload (%d sites)" % bad_nopayload,
                       "GET_CONFIG failure encoding: %s (sites without payload: %d)" % (probs, bad_nopayload), f.loc())
             continue
